@@ -140,8 +140,12 @@ class Fault:
         self.seen = 0
         self.fired = 0
 
+    PSEUDO_OPS = ("list_result", "sleep_hold")     # harness-level hook points, not storage calls
+
     def matches(self, a: Actor, op: str, cls: str) -> bool:
         if self.fired >= self.burst:
+            return False
+        if op in self.PSEUDO_OPS and self.op != op:
             return False
         if self.actor is not None and self.actor != a.name:
             return False
